@@ -39,6 +39,10 @@ type Variant struct {
 	Store     string            `json:"store,omitempty"`
 	DetOrder  bool              `json:"detOrder,omitempty"`
 	FactsMove bool              `json:"factsMove,omitempty"` // text facts are pre-loaded and vice versa
+	// TemporalBase (temporal programs): the facts are evaluated into a plain TemporalStore first; the rules are then
+	// evaluated with a TeeingTemporalStore over it as the temporal store (the base facts sit in the base layer, the
+	// way the interpreter arranges it).
+	TemporalBase bool `json:"temporalBase,omitempty"`
 	// FactsAfter: that many of the (permuted) facts of the text are written after the rules.
 	FactsAfter int `json:"factsAfter,omitempty"`
 }
@@ -356,6 +360,9 @@ type TProg struct {
 	// Edges: temporal links tl(X, Y)@[day, day+len] for a recursive reachability program
 	// tr(X,Y)@[S,E] :- tl(X,Y)@[S,E].  tr(X,Z)@[S,E] :- tr(X,Y)@[S,E], tl(Y,Z)@[S,E].
 	Edges [][4]int `json:"edges,omitempty"`
+	// Bridge: t0 (which has the base facts) also gets a rule that derives, for an atom, the span from the start of
+	// one of its intervals to the end of another one.
+	Bridge bool `json:"bridge,omitempty"`
 }
 
 func (tp TProg) preds() []string {
@@ -410,6 +417,10 @@ func (tp TProg) clauses(name func(string) string) (decls, clauses []string) {
 			clauses = append(clauses, fmt.Sprintf("%s(X)@[S, E] :- %s(X)@[S, E], %s(X)@[S2, E2].", dst, src, name("t0")))
 		}
 	}
+	if tp.Bridge {
+		// t0 has base facts AND a rule: spans from the start of one interval of an atom to the end of another one
+		clauses = append(clauses, fmt.Sprintf("%s(X)@[S, E2] :- %s(X)@[S, E], %s(X)@[S2, E2], :time:le(S, E2).", name("t0"), name("t0"), name("t0")))
+	}
 	if tp.Plain {
 		clauses = append(clauses, fmt.Sprintf("%s(X) :- %s(X)@[S, E].", name("cnt"), name(fmt.Sprintf("t%d", tp.Chain))))
 	}
@@ -462,8 +473,51 @@ func runTemporal(tp TProg, v Variant) result {
 			kind = "multiindexedarray"
 		}
 		store := prog.NewStore(kind)
-		ts := factstore.NewTemporalStore()
-		opts := []engine.EvalOption{engine.WithTemporalStore(ts), engine.WithEvaluationTime(time.Date(2024, 1, tp.NowDay, 0, 0, 0, 0, time.UTC))}
+		var ts factstore.TemporalFactStore = factstore.NewTemporalStore()
+		evalTime := engine.WithEvaluationTime(time.Date(2024, 1, tp.NowDay, 0, 0, 0, 0, time.UTC))
+		if v.TemporalBase {
+			// step 1: declarations and facts only, into a plain temporal store
+			var factLines, ruleLines []string
+			for _, cl := range clauses {
+				if strings.Contains(cl, ":-") {
+					ruleLines = append(ruleLines, cl)
+				} else {
+					factLines = append(factLines, cl)
+				}
+			}
+			head := ""
+			if v.Package != "" {
+				head = "Package " + v.Package + "!\n"
+			}
+			u1, err := parse.Unit(strings.NewReader(head + strings.Join(decls, "\n") + "\n" + strings.Join(factLines, "\n") + "\n"))
+			if err != nil {
+				res = result{stage: "parse-error", err: err.Error()}
+				return
+			}
+			i1, err := analysis.AnalyzeOneUnit(u1, nil)
+			if err != nil {
+				res = result{stage: "analysis-error", err: err.Error()}
+				return
+			}
+			base := factstore.NewTemporalStore()
+			if err := engine.EvalProgram(i1, prog.NewStore("multiindexedarray"), engine.WithTemporalStore(base), evalTime); err != nil {
+				res = result{stage: "eval-error", err: "(evaluation of the facts failed)"}
+				return
+			}
+			// step 2: declarations and rules, over a layered temporal store whose base layer holds the facts
+			u2, err := parse.Unit(strings.NewReader(head + strings.Join(decls, "\n") + "\n" + strings.Join(ruleLines, "\n") + "\n"))
+			if err != nil {
+				res = result{stage: "parse-error", err: err.Error()}
+				return
+			}
+			info, err = analysis.AnalyzeOneUnit(u2, nil)
+			if err != nil {
+				res = result{stage: "analysis-error", err: err.Error()}
+				return
+			}
+			ts = factstore.NewTeeingTemporalStore(base)
+		}
+		opts := []engine.EvalOption{engine.WithTemporalStore(ts), evalTime}
 		if v.DetOrder {
 			opts = append(opts, engine.WithDeterministicOrder())
 		}
@@ -652,7 +706,8 @@ func genVariants(t *rapid.T, preds []string, nRules, nFacts, nDecls int) []Varia
 
 func genCase(t *rapid.T) Case {
 	if rapid.IntRange(0, 9).Draw(t, "kind") < 3 {
-		tp := TProg{Chain: rapid.IntRange(1, 3).Draw(t, "chain"), Plain: rapid.Bool().Draw(t, "plain"), NowDay: rapid.IntRange(1, 28).Draw(t, "now")}
+		tp := TProg{Chain: rapid.IntRange(1, 3).Draw(t, "chain"), Plain: rapid.Bool().Draw(t, "plain"), NowDay: rapid.IntRange(1, 28).Draw(t, "now"),
+			Bridge: rapid.IntRange(0, 2).Draw(t, "bridge") == 0}
 		for i := 0; i < tp.Chain; i++ {
 			tp.Shapes = append(tp.Shapes, rapid.SampledFrom([]string{"copy", "copy", "diamond", "diamond-bind", "plus", "join"}).Draw(t, "shape"))
 		}
@@ -689,6 +744,9 @@ func genCase(t *rapid.T) Case {
 		d, cl := tp.clauses(func(s string) string { return s })
 		c := Case{Temporal: &tp}
 		c.Variants = genVariants(t, tp.preds(), len(cl), 0, len(d))
+		if rapid.Bool().Draw(t, "temporalBase") {
+			c.Variants = append(c.Variants, Variant{Name: "temporal-base-layer", TemporalBase: true})
+		}
 		// the temporal template has no separate facts / alpha renaming: drop variants that would be no-ops
 		var vs []Variant
 		for _, v := range c.Variants {
